@@ -149,8 +149,25 @@ def run_case(case, cnt=None, root=None):
         fileclass = "main" if where == host["linked"][0] else ("linked" if where in host["linked"] else "included")
         tag = f"{case['fault']}|{fileclass}|{'tab' if chr(9) in indent else ('space' if indent else 'none')}"
         clicase.write_host(host, sub)
+        if host["included"] and rnd.random() < 0.3:
+            # included files (read from disk by the assembler itself) with CR LF or bare CR line ends: lines are lines
+            eol = rnd.choice(["\r\n", "\r"])
+            for n in host["included"]:
+                with open(os.path.join(sub, n), "w", encoding="utf-8", newline="") as fh:
+                    fh.write(eol.join(host["texts"][n]) + eol)
+            cnt["included_files_with_cr_line_ends"] = cnt.get("included_files_with_cr_line_ends", 0) + 1
         files = [(os.path.join(sub, n), "\n".join(host["texts"][n]) + "\n") for n in host["linked"]]
         sources = {os.path.join(sub, n): "\n".join(l) + "\n" for n, l in host["texts"].items()}
+        if rnd.random() < 0.2:
+            # earlier in this process: other texts under the same names and of the same lengths, with their line breaks elsewhere
+            shadow = []
+            for n, tx in files:
+                nl = [i for i, c in enumerate(tx[:-1]) if c == "\n"]
+                for i in rnd.sample(nl, min(len(nl), rnd.randrange(1, 4))):
+                    tx = tx[:i] + rnd.choice([";", " "]) + tx[i + 1:]
+                shadow.append((n, tx))
+            asm.assemble(shadow, wall=60)
+            cnt["same_name_same_length_predecessors"] = cnt.get("same_name_same_length_predecessors", 0) + 1
         o = asm.assemble(files, wall=120)
         cnt["planted_programs"] += 1
         if o.cls == "stall":
